@@ -44,4 +44,28 @@ inductive Reachable {F : Type} (start : F) (step : F → F → Prop) : F → Pro
   | start : Reachable start step start
   | next {f f'} : Reachable start step f → step f f' → Reachable start step f'
 
+/-! ### post-processing of a written page (`Renderer.processFileContent`)
+
+The renderers rewrite the text of every file after the templates have run (empty paragraphs removed, empty
+table cells filled, XHTML empty-tag syntax, high characters escaped).  Whatever that step does, the property
+needs it to leave every identifier and every link alone: the identifiers and hrefs of the page, in order, are
+those the templates emitted. -/
+
+/-- pieces of a page as far as identifiers and links are concerned -/
+inductive Piece where
+  | tag (name : String)            -- an opening, closing or empty tag without id/href (`<p>`, `</p>`, `<td>`, `<br>` …)
+  | ws | text
+  | anchor (id : String)            -- `<a name=id id=id></a>`: the target of an index entry
+  | elem (id : String)              -- an empty element carrying an id (`<span id=…></span>`)
+  | link (href : String)            -- `<a href=…>text</a>`
+
+def Piece.ids : Piece → List String
+  | .anchor i => [i] | .elem i => [i] | _ => []
+def Piece.hrefs : Piece → List String
+  | .link h => [h] | _ => []
+
+/-- identifiers / links a post-processed page must still have -/
+def pageIds (ps : List Piece) : List String := ps.flatMap Piece.ids
+def pageHrefs (ps : List Piece) : List String := ps.flatMap Piece.hrefs
+
 end PlasVerif.Spec.Links
